@@ -55,7 +55,7 @@ def _half_line(dens, a, b, n, hints, sign):
             sc = cuts[-1]
             g1, g0 = g(sc), g(sc - 1.0)
             if g1 != 0.0:
-                beta = math.log(g0 / g1) if g0 * g1 > 0 else 0.0
+                beta = math.log(g0 / g1) if (g0 > 0) == (g1 > 0) and g0 != 0.0 else 0.0  # (no product: it may underflow)
                 if beta <= 1e-3:
                     return float("nan"), float("nan"), float("nan")  # not integrable at 0
                 v += g1 / beta
